@@ -147,6 +147,11 @@ package transport_controller
 // Every value handed to the unique-list resolver is an established link listed under the requested
 // target peer (so its authenticated remote peer is the target), its mounted link wraps that link,
 // and the resolver only gets that far when the requested source peer is empty or the transport's own.
+// GetTransport waits (on the broadcast) until the transport is constructed; it writes nothing.
+//@ func (*Controller).GetTransport
+//@   trusted
+//@   ensures ret1 == nil ==> ret0 != nil
+
 //@ func (*establishLinkResolver).Resolve
 //@   noframe
 //@   nosweep nil-deref
@@ -154,7 +159,7 @@ package transport_controller
 //@   assert at call SetValues: forall k int trigger arg0[k] :: 0 <= k && k < len(arg0) ==> arg0[k] != nil && arg0[k].lnk != nil
 //@   assert at call SetValues: forall k int trigger arg0[k] :: 0 <= k && k < len(arg0) ==> arg0[k].lnk.GetRemotePeer() == targetPeerID
 //@   assert at call SetValues: forall k int trigger arg0[k] :: 0 <= k && k < len(arg0) ==> istype(arg0[k].mlnk, ptr(mountedLink)) && unboxed(arg0[k].mlnk, ptr(mountedLink)) != nil && unboxed(arg0[k].mlnk, ptr(mountedLink)).link == arg0[k].lnk
-//@   assert at call SetValues: sourcePeerID == "" || sourcePeerID == tptSourcePeerID
+//@   assert at call SetValues: old(o.dir).EstablishLinkSourcePeerId() == "" || old(o.dir).EstablishLinkSourcePeerId() == tpt.GetPeerID()
 
 // The transform applied to each such value yields its mounted link.
 //@ func (*establishLinkResolver).Resolve$3
